@@ -766,6 +766,7 @@ package commitlog
 //@   ensures [wf] wfEpochs(l)
 //@   ensures [nothing-below] old(len(l.epochOffsets)) >= 1 ==> (forall i int :: 0 <= i && i < len(l.epochOffsets) ==> l.epochOffsets[i].startOffset >= offset || old(l.epochOffsets[0].startOffset) >= offset)
 //@   ensures [starts-at-the-cut] old(len(l.epochOffsets)) >= 1 && old(l.epochOffsets[0].startOffset) < offset ==> len(l.epochOffsets) >= 1 && l.epochOffsets[0].startOffset == offset
+//@   ensures [epoch-in-force-at-the-cut-kept] forall k int :: 0 <= k && k < old(len(l.epochOffsets)) && old(l.epochOffsets[k].startOffset) < offset && (k + 1 == old(len(l.epochOffsets)) || old(l.epochOffsets[k+1].startOffset) > offset) ==> len(l.epochOffsets) >= 1 && l.epochOffsets[0].leaderEpoch == old(l.epochOffsets[k].leaderEpoch)
 //@   ensures [later-entries-kept] forall j int :: 0 <= j && j < old(len(l.epochOffsets)) && old(l.epochOffsets[j].startOffset) >= offset ==> len(l.epochOffsets) >= old(len(l.epochOffsets)) - j && l.epochOffsets[len(l.epochOffsets) - (old(len(l.epochOffsets)) - j)] == old(l.epochOffsets[j]) && old(l.epochOffsets[j]).startOffset == old(l.epochOffsets[j].startOffset) && old(l.epochOffsets[j]).leaderEpoch == old(l.epochOffsets[j].leaderEpoch)
 //@   loop 1 invariant -1 <= rangeindex && rangeindex < len(l.epochOffsets) && l.epochOffsets == old(l.epochOffsets) && fresh(earliest) && removed == len(earliest) && removed <= rangeindex + 1
 //@   loop 1 invariant forall x *epochOffset :: x.leaderEpoch == old(x.leaderEpoch) && x.startOffset == old(x.startOffset)
